@@ -199,6 +199,53 @@ def per_entry_loop(body, t):
     return True
 
 
+def per_entry_for_each(prog, fn, term):
+    """`map.values_mut().for_each(|v| ..)` (or a function item): the iterator goes straight into for_each and the callee has no mutable capture"""
+    from ..cfgq import closure_id_of, fn_item_of
+    from ..exprs import ExprBuilder
+    body = fn.body
+    dest = term["dest"]
+    if not isinstance(dest, int):
+        return False
+    eb = ExprBuilder(body)
+    for b, t in body.calls():
+        if short_callee(callee_name(t) or "") != "for_each" or len(t["args"]) != 2:
+            continue
+        a0 = t["args"][0]
+        p = a0.get("m", a0.get("c")) if isinstance(a0, dict) else None
+        src = p
+        # follow plain moves back to the iterator local
+        for _ in range(3):
+            if isinstance(src, int) and src != dest:
+                d = body.single_def(src)
+                if d and d[0] == "st" and d[3]["rv"]["r"] == "use":
+                    q = d[3]["rv"]["a"]
+                    src = q.get("m", q.get("c")) if isinstance(q, dict) else None
+                    continue
+            break
+        if src != dest:
+            continue
+        cl = strip(eb.operand(t["args"][1]))
+        cid = closure_id_of(cl)
+        if cid in prog.fns:
+            # captures: by-value copies or shared references only (a `&mut` capture could accumulate across entries): look at how each captured
+            # operand of the closure aggregate is produced in this body
+            for b2, i2, s2 in body.statements():
+                if s2["s"] == "assign" and s2["rv"]["r"] == "agg" and s2["rv"].get("closure") == cid:
+                    for o in s2["rv"]["ops"]:
+                        q = o.get("m", o.get("c")) if isinstance(o, dict) else None
+                        if isinstance(q, int):
+                            d = body.single_def(q)
+                            if d and d[0] == "st" and d[3]["rv"]["r"] == "ref" and d[3]["rv"].get("mut"):
+                                return False
+                            if "&mut" in body.local_ty(q):
+                                return False
+            return True
+        if fn_item_of(cl):
+            return True
+    return False
+
+
 def run(ctx):
     prog = ctx.prog
     rts = roots(ctx, prog)
@@ -226,6 +273,8 @@ def run(ctx):
             ctx.ok("c05.hashorder", key, "order-insensitive `%s`" % sc, fn.loc(t.get("ln")))
         elif sc in ("iter_mut", "values_mut") and per_entry_loop(fn.body, t):
             ctx.ok("c05.hashorder", key, "`%s` consumed by a loop that only updates the visited entry itself (order-independent)" % sc, fn.loc(t.get("ln")))
+        elif sc in ("iter_mut", "values_mut") and per_entry_for_each(prog, fn, t):
+            ctx.ok("c05.hashorder", key, "`%s().for_each(f)` where f captures nothing mutable and returns (): each entry is updated on its own (order-independent)" % sc, fn.loc(t.get("ln")))
         else:
             ctx.violation("c05.hashorder", key, "iteration-order-dependent use `%s` of a hash container in code reachable from conversion/indicators (%s)" % (sc, nm), fn.loc(t.get("ln")))
     # no hash container in the Model closure
